@@ -138,16 +138,34 @@ Qed.
 Lemma filter_filter {A} (f g : A -> bool) l : filter f (filter g l) = filter (fun x => g x && f x) l.
 Proof. induction l as [|a l IH]; simpl; [reflexivity|]. destruct (g a); simpl; [destruct (f a); rewrite IH; reflexivity|exact IH]. Qed.
 
+Lemma fold_del_none cs : fold_left (fun acc c => r <- acc ;; pd_del c r) cs None = None.
+Proof. induction cs as [|c cs IH]; simpl; [reflexivity|exact IH]. Qed.
 Lemma fold_del_spec cs : forall t t',
   fold_left (fun acc c => r <- acc ;; pd_del c r) cs (Some t) = Some t' ->
-  t' = sem_select_cols (filter (fun x => negb (mem x cs)) (cols t)) t.
+  (cs = [] /\ t' = t) \/ t' = sem_select_cols (filter (fun x => negb (mem x cs)) (cols t)) t.
 Proof.
   induction cs as [|c cs IH]; intros t t' H.
-  - simpl in H. inversion H; subst. cbn [mem negb]. admit.
-  - simpl in H. destruct (pd_del c t) as [t1|] eqn:E.
-    + apply pd_del_inv in E. destruct E as [-> Ic]. apply IH in H. rewrite H. cbn [cols sem_select_cols].
-      rewrite select_select by (intros x I; apply filter_In in I; tauto).
-      f_equal. unfold remove_elem. rewrite filter_filter. apply filter_ext. intros x. cbn [mem].
-      unfold eqb. destruct (eq_dec c x) as [->|n]; destruct (eq_dec x c) as [e|n']; try congruence; reflexivity.
-    + exfalso. clear -H. induction cs as [|c' cs IHc]; simpl in H; [discriminate|apply IHc, H].
-Admitted.
+  - simpl in H. inversion H; subst. left. split; reflexivity.
+  - right. simpl in H. destruct (pd_del c t) as [t1|] eqn:E; [|rewrite fold_del_none in H; discriminate].
+    apply pd_del_inv in E. destruct E as [-> Ic].
+    assert (filter (fun x => negb (mem x cs)) (remove_elem c (cols t)) = filter (fun x => negb (mem x (c :: cs))) (cols t)) as FF.
+    { unfold remove_elem. rewrite filter_filter. apply filter_ext. intros x. cbn [mem].
+      unfold eqb. destruct (eq_dec c x) as [->|n]; destruct (eq_dec x c) as [e|n']; try congruence; reflexivity. }
+    destruct (IH _ _ H) as [[-> ->]|->].
+    + cbn [mem negb]. f_equal. unfold remove_elem. apply filter_ext. intros x. unfold eqb.
+      destruct (eq_dec c x) as [->|n]; destruct (eq_dec x c) as [e|n']; try congruence; reflexivity.
+    + cbn [cols sem_select_cols]. rewrite select_select by (intros x I; apply filter_In in I; tauto). rewrite FF. reflexivity.
+Qed.
+
+(* the cells of a frame after deleting the columns cs, read by name *)
+Lemma fold_del_rows cs t t' : fold_left (fun acc c => r <- acc ;; pd_del c r) cs (Some t) = Some t' -> width_ok t ->
+  cols t' = filter (fun x => negb (mem x cs)) (cols t) /\ width_ok t' /\ List.length (rows t') = List.length (rows t) /\
+  Forall2 (fun r' r => forall x, get (cols t') r' x = if mem x (cols t') then get (cols t) r x else VNull) (rows t') (rows t).
+Proof.
+  intros H W. destruct (fold_del_spec _ _ _ H) as [[-> ->]|->].
+  - cbn [mem negb]. rewrite filter_true. split; [reflexivity|]. split; [exact W|]. split; [reflexivity|].
+    rewrite <- (map_id (rows t)) at 1. rewrite <- (map_id (rows t)) at 2. apply Forall2_map_same. intros r _ x.
+    destruct (mem x (cols t)) eqn:M; [reflexivity|]. apply get_absent, mem_false, M.
+  - cbn [cols rows sem_select_cols]. split; [reflexivity|]. split; [apply width_select_cols|]. split; [apply map_length|].
+    rewrite <- (map_id (rows t)) at 2. apply Forall2_map_same. intros r _ x. apply get_map_cols.
+Qed.
